@@ -1030,7 +1030,16 @@ func (x *Exec) box(s *State, v Val, it types.Type, pos token.Pos) Val {
 	tag := numI(int64(x.eng.typeTag(v.T)))
 	switch under(v.T).(type) {
 	case *types.Pointer, *types.Map, *types.Chan:
-		return Val{K: KIface, T: it, Tag: tag, Dat: v.S}
+		// a nil pointer converted to an interface is modelled as the nil interface (typed-nil interface
+		// values are outside the model; recorded as an assumption)
+		if _, lit := isNumLit(v.S); lit {
+			if v.S == "0" {
+				return Val{K: KIface, T: it, Tag: "0", Dat: "0"}
+			}
+			return Val{K: KIface, T: it, Tag: tag, Dat: v.S}
+		}
+		x.eng.note("interface values never hold typed nil pointers (a nil pointer converted to an interface is the nil interface)")
+		return Val{K: KIface, T: it, Tag: s.define("tag", sInt, mkIte(mkEq(v.S, "0"), "0", tag)), Dat: v.S}
 	}
 	if v.K == KFunc {
 		return Val{K: KIface, T: it, Tag: tag, Dat: s.eng.fresh("fnbox", sInt)}
